@@ -118,6 +118,22 @@ def systematic_cb_cases(consts):
     return out
 
 
+def systematic_conf_cases(consts):
+    """Continuation-line values with every NL-free isspace() byte directly before ';' and '#', at the start, in the middle and at
+    the end of the value, for the free-text string options (the ini parser starts an inline comment at ';' after ANY isspace byte)."""
+    out = []
+    names = [r["name"].encode("latin1") for r in consts["options"] if r["parse"] in ("OMessageFormat", "OIdent", "OFilterChain")]
+    for i, name in enumerate(names or [b"message_format"]):
+        for ws in (b" ", b"\t", b"\x0b", b"\x0c", b"\r"):
+            for mark in (b";", b"#"):
+                for val in (b"a" + ws + mark + b"rest of the value", b"uid=%{uid}" + ws + mark + b"cmd=%{cmdline}" + ws + b"x", b"value ends with" + ws + mark):
+                    if (i + len(val)) % len(names or [1]) and ws in (b" ", b"\t"):
+                        continue                      # the plain blanks need not be repeated for every option
+                    out.append("conf\t" + hexs(b"[snoopy]\n" + name + b" = first\n    " + val + b"\n"))
+    out.append("conf\t" + hexs(b"[snoopy]\noutput = x\n\tfile:/tmp/a\x0c;b\n"))
+    return out
+
+
 def has_inline(v):
     return any(v[i] in WSB and v[i + 1] == 0x3b for i in range(len(v) - 1))
 
@@ -311,6 +327,7 @@ def gen_all(run, consts, tier):
         cases.append("load\t" + hexs(data))
     cases += systematic_cb_cases(consts)
     cases += gen_cb_cases(rng, consts, n_cb)
+    cases += systematic_conf_cases(consts)
     for _ in range(n_conf):
         data = rng.choice(rendered)
         if rng.random() < 0.3:
@@ -329,6 +346,9 @@ def check(run):
     corp_ast = [c for c in corp if c.startswith("ast\t")]
     corp_other = [c for c in corp if not c.startswith("ast\t")]
     nv, res, stats, both = process(run, b, consts, corp_other + cases, corp_ast + asts, "gen")
+    # violations that match a known: line do not stand in for a broken obligation or a broken correspondence
+    known = run.load_known()
+    nv = len([v for v in run.violations if not [k for k in known if k[0] == run.prop and re.fullmatch(k[1], v["sig"])]])
     if not ok and nv == 0:
         run.violation("proof:%s" % failed, "proof", "proof obligation no longer checks: %s\n%s" % (failed, log[-1500:]),
                       {"theorem": failed, "coq_log": log[-3000:], "translator_notes": run.notes})
